@@ -53,6 +53,11 @@ PROGRAMS = [
 SHORT_SUBJECTS = [('a14!', 'a' * 14 + '!'), ('a16', 'a' * 16), ('a12b', 'a' * 12 + 'b'), ('a9', 'a' * 9)]
 SHORT_BOMBS = ['(?:a|a|a|a)+$', '(a|a|a|a|a)*$', '(a*)*$', '((a|aa)+)+$', '(?:a|a|a|a|a|a)+!!']
 EXTRA_ARGS = [('', None), ('', 60), ('', 0), ('i', None, None), (None, None), ('', -1), ('', 10 ** 9)]
+# a run of 60000 of every character that pre- or post-processing of a subject is likely to single out (line ends, blanks, quotes, escapes,
+# separators, regex metacharacters, zero-width and byte-order marks), ending in one ordinary character
+RUN_CHARS = ['\r', '\n', '\t', '\\', '"', "'", '%', '\x00', '\x0b', '\x0c', '\u2028', '\x85', '.', '(', '[', '*', '0', '\u0301', '\ufeff', '\u200b',
+             '-', '{', '$', '^', '#', ';', ',', '|', '\x1c', '\xa0']
+RUN_SUBJECTS = [('run60000:%04x' % ord(c), c * 60000 + 'x') for c in RUN_CHARS] + [('run60000:crlf', '\r\n' * 30000 + 'x'), ('run60000:cr-a', '\ra' * 30000)]
 ODD_SUBJECTS = [('comb60000', '\u0315\u0300' * 30000), ('accents100000', '\u00e9' * 100000), ('blank100000', ' ' * 100000),
                 ('nl50000', 'a\n' * 50000), ('astral30000', '\U0001F600' * 30000), ('casefold50000', '\u00df\u0130' * 25000)]
 
@@ -60,7 +65,7 @@ ODD_SUBJECTS = [('comb60000', '\u0315\u0300' * 30000), ('accents100000', '\u00e9
 def subjects(n):
     s = [('a30b', 'a' * 30 + 'b'), ('a1000', 'a' * 1000), ('a100000', 'a' * 100000), ('manymatches', ('a' * 12 + '! ') * 300),
          ('ab50000', 'ab' * 50000)] + ODD_SUBJECTS + SHORT_SUBJECTS
-    return s[:n]
+    return s[:n] + (RUN_SUBJECTS if n > 8 else [])
 
 
 def patterns(b):
@@ -385,6 +390,10 @@ def work(task):
                 for fn in FUNCS:
                     jobs.append(('(a|aa)+', 'a30b', fl, fn))
                     jobs.append(('(a|aa)+$', 'a30b', fl, fn))
+        for sname, _ in RUN_SUBJECTS:
+            for pat in ('x', 'done'):
+                for fn in FUNCS:
+                    jobs.append((pat, sname, '', fn))
         for sname, _ in ODD_SUBJECTS:
             for pat in ('x', 'a+b', r'\w+\d', r'(\s*)*$'):
                 for fl in ('', 'ims'):
